@@ -13,8 +13,9 @@ import PlinioVerif.Model.SuperNet
 evaluation of the SuperNet, for the structural-hash leaf semantics; `out`: that hash of the output)
 or `err hyp=<0|1>` when the surgery raises.
 
-`history st=[<combiner>|<gumbel>|<hard>|<arg-max of theta or ?>|q|q|…,…] ops=[a|<combiner>|q|…,h|<0|1>,t,f|<train>,…]`
-runs the op sequence (alpha written / hard switched / temperature updated / forward pass) on the
+`history st=[<combiner>|<gumbel>|<hard>|<arg-max of theta or ?>|q|q|…,…] ops=[a|<combiner>|q|…,h|<0|1>,t,f|<train>,e,…]`
+runs the op sequence (alpha written / hard switched / temperature updated / forward pass / an earlier
+`export()`) on the
 combiner states and answers `win=[<combiner>|k,…] sampled=[<combiner>|k or ?,…] hard=[…]`: the branch
 `export()` selects afterwards (arg-max of the *current* alpha), the position of the largest entry
 of `theta_alpha` (`?` after Gumbel noise) and the hard flags.  `hyp`: the traced graph satisfies the hypotheses of the
@@ -87,6 +88,7 @@ def parseHistOp? (t : String) : Option HistOp :=
   | ["h", b] => (parseBool? b).map HistOp.setHard
   | ["t"] => some HistOp.setTemp
   | ["f", b] => (parseBool? b).map HistOp.forward
+  | ["e"] => some HistOp.exported
   | _ => none
 
 def handle (line : String) : String :=
